@@ -111,7 +111,7 @@ func (pa *patchApplierWO) Delete(key []byte) {
 	if ok, err := pa.db.Has(key); err != nil {
 		pa.err = err
 	} else if !ok {
-		pa.err = pa.db.Put(key, []byte{0})
+		pa.err = pa.db.Put(key, []byte{})
 	}
 }
 
